@@ -230,7 +230,10 @@ def mntopt_case(src, mexe, table, idx, seed):
     steps, problems = [], []
     names = sorted(table)
     jm = [n for n in names if table[n] & 0x60]
-    seqs = [[("", "journal_data"), ("", "journal_data_ordered")], [("", "journal_data_writeback"), ("", "journal_data")], [("", "journal_data_ordered"), ("^", "journal_data_ordered"), ("", "journal_data_writeback")]]
+    seqs = [[("", "journal_data"), ("", "journal_data_ordered")], [("", "journal_data_writeback"), ("", "journal_data")], [("", "journal_data_ordered"), ("^", "journal_data_ordered"), ("", "journal_data_writeback")],
+            # the negation of one journalling mode while another (or the two-bit one) is in effect clears the whole field
+            [("", "journal_data_writeback"), ("^", "journal_data_ordered")], [("", "journal_data_writeback"), ("^", "journal_data")],
+            [("", "journal_data"), ("^", "journal_data_writeback")], [("", "journal_data_ordered"), ("^", "journal_data")]]
     seq = seqs[idx] if idx < len(seqs) else [(r.choice(["", "", "^"]), r.choice(names + jm)) for _ in range(r.randint(2, 6))]
     for neg, nm in seq:
         cur = struct.unpack_from("<I", open(img, "rb").read(), 1024 + 0x100)[0]
@@ -299,7 +302,7 @@ def run(res, replay=None):
         if problems:
             bad.append((recipe, problems))
     table = mntopt_table(src)
-    nm_ = 8 if tier == "quick" else 300
+    nm_ = 12 if tier == "quick" else 300
     with concurrent.futures.ThreadPoolExecutor(12) as ex:
         mouts = list(ex.map(lambda i: mntopt_case(src, mexe, table, i, seed), range(nm_)))
     mbad = [(rcp, p) for rcp, p in mouts if p]
